@@ -40,6 +40,9 @@ ASSUMPTIONS = [
 ]
 
 SFXS = ["fasta", "fa", "json"]
+# two-part store suffixes (format + compression): records are written compressed, read() decompresses, the md5 side
+# file is md5/<name>.txt (both parts removed) and md5() finds it by a regular expression built from the whole suffix
+ZSFXS = ["fa.gz", "fasta.bz2"]
 MODES = ["w", "a", "r"]
 NCP = "not_completed/"
 
@@ -83,6 +86,21 @@ def odd_ids(sfx):
         "a.b", "a.b.c", "a.", "a..b", "md5", "logs", "not_completed", "results", "results_a",
         "a.fasta", "a.fa", "x.fasta.fa",
     ]
+
+
+def foreign_ids(sfx):
+    """the SAME records as the clean stems, spelled with another format's extension ('a.txt', 'a.fa' in a 'fasta' store):
+    the store files them under <stem>.<suffix>, so every operation on such a spelling meets the state left by the
+    bare / canonical spelling (existing completed or not-completed record, append mode, retiring drop)"""
+    other = [e for e in ("txt", "fa", "fasta", "phy", "y") if e != sfx and e != sfx.split(".")[0]][:3]
+    return [f"{s}.{e}" for s in ("a", "ba", "b") for e in other[:2]] + [f"a.{other[2]}"]
+
+
+def zip_ids(sfx):
+    """identifiers for a store with a two-part suffix 'fmt.cmp': with the format part only, with the whole suffix,
+    with the compression part only"""
+    fmt, cmp = sfx.split(".", 1)
+    return [f"a.{fmt}", f"ba.{fmt}", f"a.{sfx}", f"ba.{sfx}", f"b.{cmp}"]
 
 
 def gz_ids(sfx):
@@ -379,10 +397,15 @@ def detect_cfg(ctx):
 # --------------------------------------------------------------------------
 # history generators
 # --------------------------------------------------------------------------
-def gen_history(rng, kind, sfx, pool, nmax=40, p_obs=0.25, every_obs=False, synonyms=True, subdirs=0.05, log_ids=None):
+def gen_history(rng, kind, sfx, pool, nmax=40, p_obs=0.25, every_obs=False, synonyms=True, subdirs=0.05, log_ids=None, same_record=0.0):
     n = rng.randint(1, nmax)
     mode = rng.choice(["w", "w", "a"])
     ids = rng.sample(pool, min(len(pool), rng.randint(2, 6)))
+    if same_record and rng.random() < same_record:
+        # all spellings of ONE record, plus one unrelated identifier
+        st = spec_stem(rng.choice(ids), sfx)
+        same = [x for x in pool if spec_stem(x, sfx) == st]
+        ids = rng.sample(same, min(len(same), rng.randint(2, 4))) + [rng.choice(pool)]
     ops = []
     cnt = 0
     for _ in range(n):
@@ -510,14 +533,16 @@ def _names_stream(ctx, out):
     cases = sorted(set(cases))
     rng = ctx.subrng("names")
     extra = []
-    for sfx in SFXS:
-        extra += prop_ids(sfx) + odd_ids(sfx) + gz_ids(sfx)
+    for sfx in SFXS + ZSFXS:
+        extra += prop_ids(sfx) + odd_ids(sfx) + gz_ids(sfx) + foreign_ids(sfx)
+    for sfx in ZSFXS:
+        extra += zip_ids(sfx) + [f"a.{sfx.replace('.', '_')}", f"a.{sfx.replace('.', 'x')}", f"a{sfx.replace('.', '_')}"]
     cases += sorted(set(extra))
     if not ctx.thorough:
         cases = rng.sample(cases, 1000) + sorted(set(extra))
     reqs = []
     for uid in cases:
-        for sfx in (["fa"] if len(uid) < 12 and "fasta" not in uid else SFXS):
+        for sfx in ((["fa", "fa.gz"] if "gz" in uid or "fa" in uid or len(uid) < 3 else ["fa"]) if len(uid) < 12 and "fasta" not in uid else SFXS + ["fasta.bz2"]):
             for suffix in (sfx, "json", "log"):
                 reqs.append(dict(sfx=sfx, suffix=suffix, uid=uid))
     got = ctx.driver.batch([("names", r) for r in reqs])
@@ -555,9 +580,16 @@ def correspondence(ctx):
         hist = []
         for i in range(n_hist if kind == "dir" else n_hist // 2):
             sfx = rng.choice(SFXS) if kind == "dir" else "fasta"
+            if kind == "dir" and rng.random() < 0.2:
+                sfx = rng.choice(ZSFXS)
             r = rng.random()
             pool = (prop_ids(sfx) + dot_family(sfx)) if r < 0.45 else prop_ids(sfx) + dot_family(sfx) + odd_ids(sfx) + (gz_ids(sfx) if kind == "dir" and r > 0.9 else [])
-            mode, ops = gen_history(rng, kind, sfx, pool)
+            if sfx in ZSFXS:
+                pool = pool + zip_ids(sfx)
+            if kind == "dir" and rng.random() < 0.3:
+                pool = pool + foreign_ids(sfx)
+            mode, ops = gen_history(rng, kind, sfx, pool, subdirs=0 if sfx in ZSFXS else 0.05, same_record=0.2 if kind == "dir" else 0.0)
+            bump(out, "corr_store_suffix", sfx if kind == "dir" else "(sqlite)")
             hist.append((sfx, mode, ops))
         cmd = "dir" if kind == "dir" else "sql"
         model = ctx.driver.batch(
@@ -613,8 +645,12 @@ def correspondence(ctx):
     reqs, wants = [], []
     for i in range(ctx.budget(150, 4000)):
         kind = srng.choice(["dir", "sql"])
-        sfx = srng.choice(SFXS)
-        pool = prop_ids(sfx) + dot_family(sfx) + (odd_ids(sfx) if srng.random() < 0.4 else [])
+        sfx = srng.choice(SFXS + ZSFXS)
+        pool = prop_ids(sfx) + dot_family(sfx) + (odd_ids(sfx) if srng.random() < 0.4 else []) + (foreign_ids(sfx) + zip_ids(sfx) if sfx in ZSFXS else [])
+        if sfx in ZSFXS:
+            # the Lean dictionary keys records by the final-extension stem; for an identifier that carries the WHOLE two-part
+            # suffix the Python oracle strips both parts (the code does not: finding C13-two-part-suffix-spelling)
+            pool = [x for x in pool if not x.endswith("." + sfx)]
         mode, ops = gen_history(srng, kind, sfx, pool)
         reqs.append(("spec", dict(kind=kind, sfx=sfx, mode=mode, ops=ops)))
         o = Oracle(kind, sfx, mode)
@@ -646,9 +682,12 @@ def correspondence(ctx):
 # --------------------------------------------------------------------------
 # the dictionary oracle (independent Python statement of the spec)
 # --------------------------------------------------------------------------
-def spec_stem(uid):
-    """identifier without directories and without its final extension"""
+def spec_stem(uid, sfx=None):
+    """identifier without directories and without its format suffix: the store's whole (possibly two-part) suffix when the
+    identifier carries it, else its final extension"""
     uid = uid.rsplit("/", 1)[-1]
+    if sfx and "." in sfx and uid.endswith("." + sfx) and len(uid) > len(sfx) + 1:
+        return uid[: -len(sfx) - 1]
     i = uid.rfind(".")
     return uid[:i] if 0 < i < len(uid) - 1 else uid
 
@@ -665,10 +704,10 @@ class Oracle:
         self.sessions = [None]  # SQLite: one log slot per session (the store keeps ONE log row per connection)
 
     def cname(self, uid):
-        return f"{spec_stem(uid)}.{self.sfx}" if self.kind == "dir" else sql_norm("results", uid)
+        return f"{spec_stem(uid, self.sfx)}.{self.sfx}" if self.kind == "dir" else sql_norm("results", uid)
 
     def ncname(self, uid):
-        return f"{spec_stem(uid)}.json" if self.kind == "dir" else sql_norm("results", uid)
+        return f"{spec_stem(uid, self.sfx)}.json" if self.kind == "dir" else sql_norm("results", uid)
 
     def logname(self, uid):
         return f"{spec_stem(uid)}.log" if self.kind == "dir" else sql_norm("logs", uid)
@@ -754,7 +793,7 @@ def _classify(kind, sfx, op, res, before, exp, got, oracle_before, force_parts=N
         lost = sorted(set(en) - set(gn))
         extra = sorted(set(gn) - set(en))
         if lost:
-            own = (NCP if kind == "dir" else "") + (f"{spec_stem(uid)}.json" if kind == "dir" else sql_norm("results", uid)) if t == "nc" else None
+            own = (NCP if kind == "dir" else "") + (f"{spec_stem(uid, sfx)}.json" if kind == "dir" else sql_norm("results", uid)) if t == "nc" else None
             if t == "nc" and k in ("w", "drop") and uid and all(x != own for x in lost):
                 # a record of ANOTHER identifier disappeared
                 key = (uid.replace(f".{sfx}", "") + ".json") if kind == "dir" else uid
@@ -827,9 +866,20 @@ def _copy_oracle(o):
     return n
 
 
-def check_history(ctx, kind, sfx, mode, ops, tag="h", stop_at_first=True):
+def check_history_all(ctx, kind, sfx, mode, ops, tag="h"):
+    """every failure of one history, in order: the per-call failures that leave the state well defined (a call the
+    dictionary rejects RETURNED instead of raising -- it must still have been a no-op, so the history goes on and the
+    following observations judge exactly that), then the first state-level divergence (which ends the history)"""
+    soft = []
+    f, stats = check_history(ctx, kind, sfx, mode, ops, tag=tag, soft=soft)
+    return soft + ([f] if f else []), stats
+
+
+def check_history(ctx, kind, sfx, mode, ops, tag="h", soft=None):
     """run `ops` (observations after every op are expected to be present) on a real store and the oracle;
-    returns (failure dict | None, stats)"""
+    returns (failure dict | None, stats).  With a list `soft`, 'rejected call returned without raising' failures are
+    appended to it and the history continues (otherwise such a failure -- often one that a known finding explains --
+    would hide whatever the call did to the records)"""
     path = ctx.scratch / f"{kind}_{tag}"
     store = (RealDir if kind == "dir" else RealSql)(path, sfx, mode)
     o = Oracle(kind, sfx, mode)
@@ -882,9 +932,13 @@ def check_history(ctx, kind, sfx, mode, ops, tag="h", stop_at_first=True):
                     want_cls = "OperationalError" if kind == "sql" and op[0] == "drop" else "OSError"
                     if not raised:
                         sig = _classify(kind, sfx, op, res, None, {}, {}, before, force_parts=["rejected-without-raising"])
-                        return dict(what=f"{op[:2]} must be rejected (mode {before.mode}) but returned {res!r} without raising", input=inp_now,
-                                    expected=want_cls, got=res, sig=sig), stats
-                    if res["err"] != want_cls:
+                        fr = dict(what=f"{op[:2]} must be rejected (mode {before.mode}) but returned {res!r} without raising", input=inp_now,
+                                  expected=want_cls, got=res, sig=sig)
+                        if soft is None:
+                            return fr, stats
+                        if all(x["sig"] != sig for x in soft):
+                            soft.append(fr)
+                    elif res["err"] != want_cls:
                         sig = _classify(kind, sfx, op, res, None, {}, {}, before, force_parts=["wrong-exception-class"])
                         return dict(what=f"{op[:2]} is rejected with {res['err']} instead of {want_cls}", input=inp_now,
                                     expected=want_cls, got=res, sig=sig), stats
@@ -972,8 +1026,8 @@ def _shrink(ctx, kind, sfx, mode, ops, sig):
         for i in range(len(cur) - 1, -1, -1):
             cand = cur[:i] + cur[i + 1 :]
             n += 1
-            f, _ = check_history(ctx, kind, sfx, mode, _with_obs(cand), tag="shrink")
-            if f and f["sig"] == sig:
+            fs, _ = check_history_all(ctx, kind, sfx, mode, _with_obs(cand), tag="shrink")
+            if any(f["sig"] == sig for f in fs):
                 cur = cand
                 changed = True
     return cur
@@ -1019,6 +1073,26 @@ def spec_check(ctx, budget):
                 continue
             ops = [[*a, f"d{j}"] if a[0] != "drop" else list(a) for j, a in enumerate(tup)]
             cases.append(("dir", "fasta", "w" if n < 3 or rng.random() < 0.5 else "a", ops))
+    # spelling box: ONE record under its bare, canonical and foreign-extension spelling (every pair of operations, a sample of triples)
+    ids4 = ["a", "a.fasta", "a.txt"]
+    atoms4 = [["w", i] for i in ids4] + [["nc", i] for i in ids4] + [["drop", i] for i in ids4]
+    for n in (2, 3):
+        for tup in itertools.product(atoms4, repeat=n):
+            if not any(a[1] == "a.txt" for a in tup) or (n == 3 and rng.random() < (0.97 if budget < 8 else 0.5)):
+                continue
+            ops = [[*a, f"d{j}"] if a[0] != "drop" else list(a) for j, a in enumerate(tup)]
+            for mode in ("w", "a"):
+                cases.append(("dir", "fasta", mode, ops))
+    # two-part suffix box: a store that keeps its records compressed (every single and pair of operations, a sample of triples)
+    for zs in ZSFXS:
+        ids5 = ["a", "ba", "a." + zs.split(".")[0]]
+        atoms5 = [["w", i] for i in ids5] + [["nc", i] for i in ids5] + [["drop", i] for i in ["a", "ba", ""]]
+        for n in (1, 2, 3):
+            for tup in itertools.product(atoms5, repeat=n):
+                if (n == 2 and rng.random() < (0.5 if zs == ZSFXS[0] else 0.85) and budget < 8) or (n == 3 and rng.random() < (0.98 if budget < 8 else 0.7)):
+                    continue
+                ops = [[*a, f"d{j}"] if a[0] != "drop" else list(a) for j, a in enumerate(tup)]
+                cases.append(("dir", zs, "w" if n == 1 or rng.random() < 0.5 else "a", ops))
     # third exhaustive box (SQLite): the two spellings of one record, second operation after close + re-open in append mode
     atoms3 = [["w", "b"], ["w", "results/b"], ["nc", "b"], ["nc", "results/b"], ["drop", "b"]]
     for a1, a2 in itertools.product(atoms3, repeat=2):
@@ -1029,8 +1103,21 @@ def spec_check(ctx, budget):
     for i in range(130 * budget):
         kind = "dir" if rng.random() < 0.65 else "sql"
         sfx = rng.choice(SFXS) if kind == "dir" else "fasta"
-        pool = prop_ids(sfx) + (dot_family(sfx) if rng.random() < 0.5 else []) + (spec_odd_ids(sfx) if rng.random() < 0.25 else [])
-        mode, ops = gen_history(rng, kind, sfx, pool, nmax=40 if i % 3 else 12, subdirs=0.02, log_ids=["run.log", "l2", "l3.log"])
+        if kind == "dir" and rng.random() < 0.2:
+            sfx = rng.choice(ZSFXS)
+        r = rng.random()
+        if kind == "dir" and r < 0.3:
+            # few records, every one under several spellings (bare, canonical, other format's extension): most operations
+            # meet a record that an EARLIER spelling left behind
+            st = rng.sample(["a", "ba", "b"], 2)
+            pool = [x for x in st + [f"{t}.{sfx}" for t in st] + foreign_ids(sfx) + (zip_ids(sfx) if sfx in ZSFXS else [])
+                    if spec_stem(x, sfx) in st or x in st]
+        else:
+            pool = prop_ids(sfx) + (dot_family(sfx) if rng.random() < 0.5 else []) + (spec_odd_ids(sfx) if rng.random() < 0.25 else [])
+            if kind == "dir":
+                pool = pool + (foreign_ids(sfx) if rng.random() < 0.4 else []) + (zip_ids(sfx) if sfx in ZSFXS else [])
+        mode, ops = gen_history(rng, kind, sfx, pool, nmax=40 if i % 3 else 12, subdirs=0 if sfx in ZSFXS else 0.02, log_ids=["run.log", "l2", "l3.log"],
+                                same_record=0.5 if kind == "dir" and r < 0.3 else 0.0)
         cases.append((kind, sfx, mode, [op for op in ops if op[0] != "obs"]))
     seen_sigs = {}
     # which histories satisfy the hypotheses (hyg, safeHist) of store_refines_dict_partial
@@ -1049,40 +1136,44 @@ def spec_check(ctx, budget):
         for i, r in zip(idx2, drv.batch([("safe_sql", dict(mode=cases[i][2], ops=cases[i][3])) for i in idx2])):
             covered[i] = bool(r.get("safe"))
     for i, (kind, sfx, mode, ops) in enumerate(cases):
-        f, st = check_history(ctx, kind, sfx, mode, _with_obs(ops), tag=f"s{i}")
+        fs, st = check_history_all(ctx, kind, sfx, mode, _with_obs(ops), tag=f"s{i}")
         out["evaluations"] += 1
         if i in covered:
             bump(out, f"{kind}_history_satisfies_theorem_hypotheses", covered[i])
+        for f in fs:
             # predicted by the theorems: a completed md5 missing after retiring (lostRun), FileNotFoundError of drop-all without directory (expectRes)
             # (the theorems say nothing about directory creation by a read-only store: readonly_creates_directory_counter)
             predicted = ("c-md5-missing", "readonly-created-directory") + (
-                ("unexpected-raise",) if f is not None and f["sig"].startswith("dir:drop:unexpected-raise:raised-FileNotFoundError") else ())
-            if covered[i] and f is not None and any(a.split(":")[2] not in predicted for a in sig_atoms(f["sig"])):
+                ("unexpected-raise",) if f["sig"].startswith("dir:drop:unexpected-raise:raised-FileNotFoundError") else ())
+            if covered.get(i) and any(a.split(":")[2] not in predicted for a in sig_atoms(f["sig"])):
                 # theorem + model say this history refines the dictionary (up to a missing completed md5)
                 add_failure(out, "corr", "hypotheses of (sqlite_)store_refines_dict_partial hold for this history but the real store differs from the dictionary",
                             f["input"], f["expected"], f["got"], confirmed=False, sig="theorem-hypotheses-vs-real:" + f["sig"])
         bump(out, "spec_stream", "exhaustive-small" if i < small_n else "random")
         bump(out, "spec_store", kind)
+        bump(out, "spec_store_suffix", sfx if kind == "dir" else "(sqlite)")
         if st["ops"] - st["rejected"] >= 4:
             out["nontrivial"].add((kind, sfx, mode, str(ops)))
-        if f is None:
+        if not fs:
             bump(out, "spec_result", "agrees")
             if len(out["samples"]) < 3 and 5 < len(ops) < 12:
                 out["samples"].append(dict(store=kind, sfx=sfx, mode=mode, ops=ops, agrees_with_dictionary=True))
             continue
         bump(out, "spec_result", "differs")
-        bump(out, "spec_sig", f["sig"])
-        if f["sig"] in seen_sigs:
-            # keep the shortest history per signature
-            if len(f["input"]["ops"]) >= len(seen_sigs[f["sig"]]["input"]["ops"]):
-                continue
-        seen_sigs[f["sig"]] = f
+        for f in fs:
+            bump(out, "spec_sig", f["sig"])
+            if f["sig"] in seen_sigs:
+                # keep the shortest history per signature
+                if len(f["input"]["ops"]) >= len(seen_sigs[f["sig"]]["input"]["ops"]):
+                    continue
+            seen_sigs[f["sig"]] = f
     for sig, f in sorted(seen_sigs.items()):
         inp = f["input"]
         small = _shrink(ctx, inp["store"], inp["sfx"], inp["mode"], inp["ops"], sig)
-        f2, _ = check_history(ctx, inp["store"], inp["sfx"], inp["mode"], _with_obs(small), tag="final")
-        if f2 and f2["sig"] == sig:
-            f = f2
+        fs2, _ = check_history_all(ctx, inp["store"], inp["sfx"], inp["mode"], _with_obs(small), tag="final")
+        for f2 in fs2:
+            if f2["sig"] == sig:
+                f = f2
         add_failure(out, "spec", f["what"], f["input"], f["expected"], f["got"], confirmed=True, sig=sig)
     _io_stream(ctx, out, budget)
     return out
@@ -1266,9 +1357,10 @@ def check_witness(ctx, w):
         add_failure(out, "spec", f["what"], f["input"], f["expected"], f["got"], confirmed=True, sig=f["sig"])
         return out["failures"][0]
     ops = [op for op in w["ops"] if op[0] != "obs"]
-    f, _ = check_history(ctx, w["store"], w["sfx"], w["mode"], _with_obs(ops), tag="witness")
-    if f is None:
+    fs, _ = check_history_all(ctx, w["store"], w["sfx"], w["mode"], _with_obs(ops), tag="witness")
+    if not fs:
         return None
+    f = fs[0]
     out = new_outcome()
     add_failure(out, "spec", f["what"], f["input"], f["expected"], f["got"], confirmed=True, sig=f["sig"])
     return out["failures"][0]
@@ -1285,9 +1377,11 @@ def replay(ctx, data):
     if not inp or "ops" not in inp:
         return False
     ops = [op for op in inp["ops"] if op[0] != "obs"]
-    g, _ = check_history(ctx, inp["store"], inp["sfx"], inp["mode"], _with_obs(ops), tag="replay")
-    if g:
+    gs, _ = check_history_all(ctx, inp["store"], inp["sfx"], inp["mode"], _with_obs(ops), tag="replay")
+    want = f.get("sig")
+    gs = [g for g in gs if g["sig"] == want] or gs
+    for g in gs[:1]:
         print("signature:", g["sig"])
         print("expected:", g["expected"])
         print("got:     ", g["got"])
-    return g is not None
+    return bool(gs)
